@@ -20,7 +20,8 @@ theorem retyping_of_infer (jt : JetTypes) (p : Plan) (wit : Nat → Option (List
     (hlt : ∀ j, mask j = true → j < p.size)
     (hclosed : ∀ j nd', mask j = true → (prunePlan S ids cmf p)[j]? = some nd' →
       ∀ c ∈ nd'.children, mask c = true)
-    (hwit : ∀ j, mask j = true → p[j]? = some .witness → wit' j = pruneWit wit arr a1 j) :
+    (hwit : ∀ j bits, mask j = true → p[j]? = some .witness → pruneWit wit arr a1 j = some bits →
+      wit' j = some bits) :
     Retyping S ids cmf { plan := p, arrows := arr, wit := wit, cmr := cm, jets := jets } a1 wit' jt mask where
   closed := hclosed
   size := fun j mj => by rw [inferM_size h', prunePlan_size]; exact hlt j mj
@@ -35,8 +36,7 @@ theorem retyping_of_infer (jt : JetTypes) (p : Plan) (wit : Nat → Option (List
       simpa [prunePlan] using listSub_pruneList jt S ids cmf p.toList 0
     have hle := (inferM_mono jt (fun _ _ => rfl) hsub prog h h' j (lt_size_of_getElem? hnd0)).2
     obtain ⟨w, hw⟩ := pruneV_of_le hT hle
-    refine ⟨w, hw, ?_⟩
-    rw [hwit j mj hnd0]
+    refine ⟨w, hw, hwit j _ mj hnd0 ?_⟩
     simp only [pruneWit, hb0, hv0, hw, Option.bind_eq_bind, Option.bind_some, Option.pure_def]
   jet := by
     intro j name hnd
@@ -53,7 +53,8 @@ theorem eval_retyped_prune (jt : JetTypes) (p : Plan) (wit : Nat → Option (Lis
     (hlt : ∀ j, mask j = true → j < p.size)
     (hclosed : ∀ j nd', mask j = true → (prunePlan S ids cmf p)[j]? = some nd' →
       ∀ c ∈ nd'.children, mask c = true)
-    (hwit : ∀ j, mask j = true → p[j]? = some .witness → wit' j = pruneWit wit arr a1 j)
+    (hwit : ∀ j bits, mask j = true → p[j]? = some .witness → pruneWit wit arr a1 j = some bits →
+      wit' j = some bits)
     (f i : Nat) (hmi : mask i = true) (x : Σ a b, Term a b)
     (hx : elabNode { plan := p, arrows := arr, wit := wit, cmr := cm, jets := jets } f i = some x)
     (v o : Val) (tr : Trace) (hv : HasTy v x.1)
